@@ -6,6 +6,7 @@
 #include "common/mc.hpp"
 #include "common/refx.hpp"
 #include "common/xgen.hpp"
+#include "common/xtok.hpp"
 #include "adapters/tools.hpp"
 
 using namespace mc;
@@ -51,19 +52,6 @@ static void judge(const std::string &src, uint64_t order, const std::string &fam
     if (a.fileExists) rep("rejected-but-emitted", "rejected (" + a.err.substr(0, 80) + ") but an output file exists");
     st.outcome(fnv(a.err.substr(0, a.err.find('\n'))));
   }
-}
-// tokens of an X source with their text (via the reference lexer's positions)
-static std::vector<std::string> tokenizeX(const std::string &src) {
-  std::vector<std::string> t; refx::Lexer lx(src);
-  while (true) {
-    // skip whitespace/comments to find the token start
-    while (lx.p < src.size()) { if (isspace((unsigned char)src[lx.p])) { lx.p++; continue; } if (src[lx.p] == '|') { while (lx.p < src.size() && src[lx.p] != '\n') lx.p++; continue; } break; }
-    size_t b = lx.p; auto tk = lx.next();
-    if (tk.t == refx::T_EOF) break;
-    if (tk.t == refx::T_ERR) { t.push_back(src.substr(b, std::max<size_t>(1, lx.p - b))); if (lx.p <= b) lx.p = b + 1; continue; }
-    t.push_back(src.substr(b, lx.p - b));
-  }
-  return t;
 }
 static int runProc(const std::vector<std::string> &argv, const std::string &cwd, std::string &err, double timeout) {
   std::string errPath = cwd + "/stderr.txt";
@@ -116,13 +104,10 @@ int main(int argc, char **argv) {
   { DIR *d = opendir((ctx.repo + "/tests/x").c_str()); std::vector<std::string> names; if (d) { while (auto e = readdir(d)) { std::string n = e->d_name; if (n.size() > 2 && n.substr(n.size() - 2) == ".x") names.push_back(n); } closedir(d); } std::sort(names.begin(), names.end());
     for (auto &n : names) seeds.push_back({n, slurp(ctx.repo + "/tests/x/" + n)}); }
   { xgen::Corpus C; C.build(false); for (uint64_t i = 0; i < C.total; i += C.total / (th ? 37 : 11) + 1) { std::string sh, fam; seeds.push_back({"corpus:" + fam, C.make(i, &sh, &fam)}); } }
-  seeds.push_back({"semantic-seed", "val k = 2; val put = 1; var g; array a[k + 1];\nfunc f(val n, array q) is var t; { t := n + q[0]; return t }\nproc p(val v) is var w; { w := v; g := w }\n"
-                                    "proc main() is var x; val l = k + 1; { x := f(l, a); p(x); a[1] := 3; if x < 2 then put('y', 0) else skip; while x > 0 do x := x - 1; 0(g + a[1]) }\n"});
+  seeds.push_back({"semantic-seed", semanticSeed()});
   for (auto &sd : seeds) {
     auto toks = tokenizeX(sd.second); if (toks.empty()) continue;
-    std::vector<std::string> repl = TOK; std::set<std::string> ids; for (auto &t : toks) if (isalpha((unsigned char)t[0])) ids.insert(t);
-    for (auto &i : ids) repl.push_back(i);
-    for (const char *h : {"undeclared", "4294967295", "99999999999999999999", "#", "#80000000", "3", "''", "'\\q'", "\"", "-1"}) repl.push_back(h);
+    std::vector<std::string> repl = editReplacements(toks, TOK);
     bool big = toks.size() > 3000;
     auto E = std::make_shared<robust::Edits>(toks, repl, " ", big);
     uint64_t stride = big ? (th ? 1 : 16) : ((toks.size() > 300 && !th) ? 5 : 1);
